@@ -113,6 +113,10 @@ def option_variation_slice(prop, tier, seed, modes=None, gen_kw=None, **extra):
     from . import c09
 
     cs = c09.option_variation_cases("thorough", seed, **(gen_kw or {}))  # the full cross product (4 modes per variation); sliced here
+    hard_cs = []
+    if modes is None or any(m_ != "det" for m_ in modes):
+        # each variation once more on a rare-path problem (noisy target under a measure-zero / thin-band constraint)
+        hard_cs = [c for c in c09.option_variation_cases("thorough", seed, hard=True) if c.get("hard")]
     i = OPTVAR_PROPS.index(prop)
     n = len(OPTVAR_PROPS)
     allowed = list(modes) if modes is not None else ["det", "auto", "he", "declared"]
@@ -139,4 +143,13 @@ def option_variation_slice(prop, tier, seed, modes=None, gen_kw=None, **extra):
             take = [group[(j + seed + i) % len(group)]]
         for c in take:
             out.append(dict({"spec": c["spec"], "optvar": c["option"]}, **extra))
+    seen = set()
+    for c in hard_cs:
+        opt = tuple(c["option"])
+        if opt[0] in OPTVAR_EXCLUDE.get(prop, ()) or opt in seen:
+            continue
+        if modes is not None and c["spec"]["noise"]["mode"] not in modes:
+            continue
+        seen.add(opt)
+        out.append(dict({"spec": c["spec"], "optvar": c["option"], "hard": True}, **extra))
     return out
